@@ -36,15 +36,19 @@ def force_sets(a, b, seed):
 
 def cases(tier, seed):
     out = []
-    for model, fs, inc, fb in itertools.product(['plate', 'cpanel', 'plate_w', 'kpanel'], list(force_sets(1, 1, 0)), [1.0, 0.37],
+    for model, fs, inc, fb in itertools.product(['plate', 'cpanel', 'plate_w', 'kpanel'], list(force_sets(1, 1, 0)), [1.0, 0.37, 0.0],
                                                 ['SSSS', 'FFFF', 'generic', 'CFFF']):
+        if inc == 0.0 and fb not in ('SSSS', 'FFFF'):
+            continue
         out.append(dict(kind='panel', model=model, fset=fs, inc=inc, fbase=fb, seed=seed))
     L = 3 if tier == 'quick' else 4
     for n in range(2, L + 1):
         for seq in itertools.product('ABC', repeat=n):
             if tier == 'quick' and n == 3 and seq[0] != 'A':
                 continue
-            for inc in (1.0, 0.37):
+            for inc in (1.0, 0.37, 0.0):
+                if inc == 0.0 and n > 2:
+                    continue
                 out.append(dict(kind='assembly', seq=''.join(seq), inc=inc, seed=seed))
     for curved, stiffs, where in itertools.product([0, 1], [(), ('b1d_f',), ('b2d_f',), ('t2d',), ('b2d_f', 't2d'), ('t2d', 'b2d_bf')],
                                                    ['skin', 'stiff', 'both']):
@@ -210,7 +214,10 @@ def check_bay(case):
     spb = mk_bay(case['curved'], cuts, case['stiffs'], seed)
     a, b = spb.a, spb.b
     nskin = 3 * spb.m * spb.n
-    skin_forces = [((0.37 * a, 0.61 * b), (1.3, -0.7, 2.9)), ((a, 0.4 * b), (0., 0., -1.))] if case['where'] in ('skin', 'both') else []
+    from .c13 import CUTS
+    # the third force acts exactly on the line shared by two skin strips
+    skin_forces = [((0.37 * a, 0.61 * b), (1.3, -0.7, 2.9)), ((a, 0.4 * b), (0., 0., -1.)),
+                   ((0.52 * a, CUTS[cuts[0]] * b), (0.4, 0.9, -1.7))] if case['where'] in ('skin', 'both') else []
     for pos, comp in skin_forces:
         spb.forces_skin.append([pos[0], pos[1], comp[0], comp[1], comp[2]])
     stiff_forces = {}
